@@ -413,7 +413,7 @@ theorem inv_setPin (s : State) (k : Nat) (o n : Option Bytes) (h : LoginInv s) :
 
 theorem inv_create (s : State) (k : Nat) (tpl : Template) (e : RV) (h : LoginInv s) : LoginInv (stepCreate s k tpl e).1 := by
   unfold LoginInv at *
-  unfold stepCreate
+  unfold stepCreate addObject
   step_cases <;> first | exact h | exact h.append_obj _ _
 
 theorem inv_destroy (s : State) (hwf : s.WF) (k o : Nat) (h : LoginInv s) : LoginInv (stepDestroy s k o).1 := by
@@ -421,6 +421,27 @@ theorem inv_destroy (s : State) (hwf : s.WF) (k o : Nat) (h : LoginInv s) : Logi
   unfold stepDestroy
   step_cases <;> first | exact h | skip
   exact h.of_sess_same (fun q hq _ => anyE_destroyObject s.handles o q hq s.counter hwf)
+
+theorem inv_copy (s : State) (k o : Nat) (tpl : Template) (e : RV) (h : LoginInv s) : LoginInv (stepCopy s k o tpl e).1 := by
+  unfold LoginInv at *
+  unfold stepCopy addObject
+  step_cases <;> first | exact h | exact h.append_obj _ _
+
+theorem inv_getAttr (s : State) (k o : Nat) (r : List (Nat × Option Nat)) (ov : List (Nat × Option Bytes)) (h : LoginInv s) :
+    LoginInv (stepGetAttr s k o r ov).1 := by
+  unfold LoginInv at *
+  unfold stepGetAttr
+  step_cases <;> exact h
+
+theorem inv_setAttr (s : State) (k o : Nat) (tpl : Template) (e : RV) (h : LoginInv s) : LoginInv (stepSetAttr s k o tpl e).1 := by
+  unfold LoginInv at *
+  unfold stepSetAttr
+  step_cases <;> exact h
+
+theorem inv_objSize (s : State) (k o : Nat) (h : LoginInv s) : LoginInv (stepObjSize s k o).1 := by
+  unfold LoginInv at *
+  unfold stepObjSize
+  step_cases <;> exact h
 
 theorem inv_objProbe (s : State) (k o : Nat) (h : LoginInv s) : LoginInv (stepObjProbe s k o).1 := by
   unfold LoginInv at *
@@ -548,6 +569,10 @@ theorem linv_step (s : State) (c : Call) (hwf : s.WF) (h : LoginInv s) : LoginIn
   | create k tpl e => simp only [step, guardInit]; split <;> first | exact h | exact inv_create s k tpl e h
   | destroy k o => simp only [step, guardInit]; split <;> first | exact h | exact inv_destroy s hwf k o h
   | objProbe k o => simp only [step, guardInit]; split <;> first | exact h | exact inv_objProbe s k o h
+  | getAttr k o r ov => simp only [step, guardInit]; split <;> first | exact h | exact inv_getAttr s k o r ov h
+  | setAttr k o tpl e => simp only [step, guardInit]; split <;> first | exact h | exact inv_setAttr s k o tpl e h
+  | copy k o tpl e => simp only [step, guardInit]; split <;> first | exact h | exact inv_copy s k o tpl e h
+  | objSize k o => simp only [step, guardInit]; split <;> first | exact h | exact inv_objSize s k o h
   | findInit k tpl m => simp only [step, guardInit]; split <;> first | exact h | exact inv_findInit s hwf k tpl m h
   | find k m => simp only [step, guardInit]; split <;> first | exact h | exact inv_find s hwf k m h
   | findFinal k => simp only [step, guardInit]; split <;> first | exact h | exact inv_findFinal s hwf k h
